@@ -15,7 +15,8 @@ RULE = ("post-conditions on the real LogarithmicUnit.level and Level.quantify wi
         "units and prefixes x level magnitudes in [-200, 200] x the quantity written in another convertible unit; "
         "monotone chains, both round trips, level == approximately(quantity) in both orders.  distinct = (family, "
         "reference, quantity unit, magnitude bucket); non-trivial = level != 0"
-        " Plus a user unit recalibrated between readings and single Level objects quantified twice (first under a coarse decimal precision, then after an in-place adjustment).")
+        " Plus a user unit recalibrated between readings and single Level objects quantified twice (first under a coarse decimal precision, then after an in-place adjustment)."
+        " Half of the coarse-first readings use a reference nobody has used before, so the coarse reading is the first thing that ever happens to that logarithmic unit.")
 ASSUMPTIONS = [
     "k = 2 for references whose dimension is a potential, current, pressure or speed (root-power), 1 for power, energy, "
     "intensity and frequency references - taken from the physics, not from ROOT_POWER_DIMENSIONS",
